@@ -14,6 +14,8 @@ extern "C" {
 #include <memory>
 #include <optional>
 #include <string>
+#include <thread>
+#include <unistd.h>
 #include <string_view>
 #include <vector>
 #include <unistd.h>
@@ -72,8 +74,30 @@ inline void on_terminate() {
   crash_line("uncaught exception / terminate");
   _exit(3);
 }
+// unbounded allocation: a watchdog thread ends the run with a `crashed` line when the resident set passes a bound
+// (default 8 GB, far above what any workload needs), before the machine starts swapping / the OOM killer picks a victim
+inline void rss_watchdog() {
+  long max_mb = 8000;
+  if (const char* m = getenv("VERIF_MAXRSS_MB")) max_mb = atol(m);
+  std::thread([max_mb] {
+    const long page = sysconf(_SC_PAGESIZE);
+    for (;;) {
+      usleep(50000);
+      FILE* f = fopen("/proc/self/statm", "r");
+      if (!f) continue;
+      long size = 0, rss = 0;
+      int got = fscanf(f, "%ld %ld", &size, &rss);
+      fclose(f);
+      if (got == 2 && rss * (page / 1024) / 1024 > max_mb) {
+        crash_line("memory: resident set above the harness bound (unbounded allocation in the call in flight)");
+        _exit(3);
+      }
+    }
+  }).detach();
+}
 inline void install_handlers() {
   std::set_terminate(on_terminate);
+  rss_watchdog();
   for (int s : {SIGSEGV, SIGABRT, SIGBUS, SIGFPE, SIGILL, SIGALRM, SIGTERM}) signal(s, on_signal);
   // non-termination: the driver sets VERIF_ALARM a little below its own timeout, so that the trace
   // still ends with a `crashed` line that names the call in flight instead of being lost with the buffer
